@@ -52,6 +52,8 @@ type muxOp struct {
 	got         string
 	// the node answered (at least once) under another protocol version
 	otherVersion bool
+	// the node answered (at least once) with a body the driver cannot take in
+	undecodable bool
 }
 
 type streamObs struct {
@@ -215,7 +217,7 @@ func runMux(e *Env) {
 		}
 		kind := 0
 		if faultsOn {
-			kind = tp.Weighted([]int{12, 3, 2, 1})
+			kind = tp.Weighted([]int{12, 3, 2, 1, 1})
 		}
 		if blackhole {
 			kind = 2
@@ -223,7 +225,9 @@ func runMux(e *Env) {
 		switch kind {
 		case 1:
 			k.Fault("reply.server-error")
-			cl.SendError(sc, rec, cqlspec.ErrOverloaded, "overloaded "+token, node.Hold)
+			// (any error code is the answer to this request alone)
+			code := []int32{cqlspec.ErrOverloaded, cqlspec.ErrOverloaded, cqlspec.ErrBootstrapping, cqlspec.ErrServer, cqlspec.ErrInvalid, cqlspec.ErrProtocol}[tp.Next(6)]
+			cl.SendError(sc, rec, code, "refused "+token, node.Hold)
 		case 2:
 			k.Fault("reply.never")
 			cl.Send(sc, rec, &cqlspec.Response{Op: cqlspec.OpResult, Kind: cqlspec.KindVoid}, node.Drop, "NEVER "+token)
@@ -234,6 +238,18 @@ func runMux(e *Env) {
 			}
 			row := [][]cqlspec.Cell{{{Bytes: cqlspec.EncText(token + "/" + sc.Host.Nonce)}}}
 			r := cl.Send(sc, rec, &cqlspec.Response{Op: cqlspec.OpResult, Kind: cqlspec.KindRows, Rows: &meta, RowData: row}, node.Hold, "ROWS "+token)
+			if kind == 4 {
+				// a body the driver cannot take in: the header says "compressed", no compression
+				// was negotiated. The caller is told, the connection goes on (the frame was read
+				// to its end), the stream id is free again
+				k.Fault("reply.compressed-flag-without-compression")
+				r.Frame[1] |= cqlspec.FlagCompression
+				mu.Lock()
+				if op := ops[token]; op != nil {
+					op.undecodable = true
+				}
+				mu.Unlock()
+			}
 			if kind == 3 {
 				// a well-formed answer on the request's stream whose header names the
 				// neighbouring protocol version (same header layout): the caller is told so,
@@ -547,6 +563,9 @@ func muxCheckOutcome(k *kernel.Kernel, op *muxOp, err error, got string) {
 			return
 		}
 		if op.otherVersion && strings.Contains(err.Error(), "unexpected protocol version in response") {
+			return
+		}
+		if op.undecodable && strings.Contains(err.Error(), "ompress") {
 			return
 		}
 		if op.unbuildable && (strings.Contains(err.Error(), "named query values are not supported in batches") || strings.Contains(err.Error(), "named values are not supported by protocol versions below 3") || strings.Contains(err.Error(), "ustom payload is not supported")) {
